@@ -17,6 +17,20 @@ pub struct SegBuf {
     pub off: usize,
 }
 impl SegBuf {
+    /// many 1-2 byte segments: more chunks than any fixed-size scratch array of an adapter
+    pub fn from_fine(data: &[u8], seed: u64) -> SegBuf {
+        let mut rng = Rng::new(seed);
+        let mut segs = Vec::new();
+        let mut p = 0;
+        while p < data.len() {
+            let n = (1 + rng.below(2) as usize).min(data.len() - p);
+            segs.push(data[p..p + n].to_vec());
+            p += n;
+        }
+        let mut s = SegBuf { segs, i: 0, off: 0 };
+        s.skip();
+        s
+    }
     pub fn from_cuts(data: &[u8], seed: u64) -> SegBuf {
         let mut rng = Rng::new(seed);
         let mut segs = Vec::new();
@@ -255,7 +269,7 @@ impl<'a> Buf for Node<'a> {
 
 pub const LEAF_KINDS: &[&str] = &[
     "slice", "bytes_static", "bytes_vec", "bytes_shared", "bytes_owner", "bytes_mut", "bytes_mut_off", "bytes_mut_shared",
-    "cursor_vec", "cursor_slice", "cursor_bytes", "cursor_beyond", "deque", "deque_wrapped", "seg", "seg_default",
+    "cursor_vec", "cursor_slice", "cursor_bytes", "cursor_beyond", "deque", "deque_wrapped", "seg", "seg_default", "seg_fine",
 ];
 
 /// Random plan of depth <= `depth`. Leaves carry {seed, n}; the logical sequence a
@@ -469,6 +483,7 @@ pub fn build<'a>(p: &J, arena: &'a [Vec<u8>], next: &mut usize) -> Node<'a> {
                     Node::Deque(q)
                 }
                 "seg_default" => Node::SegD(SegDefault(SegBuf::from_cuts(d, p.u64("seed") ^ 0x5e6))),
+                "seg_fine" => Node::Seg(SegBuf::from_fine(d, p.u64("seed") ^ 0x5e6)),
                 _ => Node::Seg(SegBuf::from_cuts(d, p.u64("seed") ^ 0x5e6)),
             }
         }
